@@ -44,7 +44,7 @@ enum {
     F_DEC_REJECT_PAD_BITS, F_DEC_REJECT_LENGTH, F_DEC_PRELEN, F_BODY_GT_32, F_LONG_INPUT, F_HEX_ENC, F_HEX_DEC_EVEN,
     F_HEX_DEC_ODD, F_HEX_DEC_UPPER, F_HEX_REJECT, F_HEX_APPEND_DYNAMIC, F_UTF8_VALID_MULTIBYTE, F_UTF8_INVALID,
     F_UTF8_SPLIT_INSIDE_CODEPOINT, F_UTF8_EMPTY_CHUNK, F_UTF8_CALLBACK_ABORT, F_UTF8_REUSE_AFTER_ERROR,
-    F_UTF8_ABOVE_10FFFF, F_LEN_OVERFLOW, F_NFLAGS
+    F_UTF8_ABOVE_10FFFF, F_LEN_OVERFLOW, F_UTF8_BOM_PREFIX, F_NFLAGS
 };
 static const char *s_flag_names[F_NFLAGS] = {
     "b64_encode_no_padding", "b64_encode_one_pad", "b64_encode_two_pads", "b64_encode_appended_at_len",
@@ -54,7 +54,8 @@ static const char *s_flag_names[F_NFLAGS] = {
     "decode_with_preexisting_len", "b64_input_longer_than_one_vector", "b64_input_4090_4100", "hex_encode",
     "hex_decode_even", "hex_decode_odd_length", "hex_decode_uppercase", "hex_decode_reject", "hex_append_dynamic",
     "utf8_valid_multibyte", "utf8_invalid_text", "utf8_split_inside_codepoint", "utf8_empty_chunk",
-    "utf8_callback_abort", "utf8_decoder_reused_after_error", "utf8_above_10ffff_seen", "length_fn_overflow_refused"};
+    "utf8_callback_abort", "utf8_decoder_reused_after_error", "utf8_above_10ffff_seen", "length_fn_overflow_refused",
+    "utf8_text_with_bom_prefix"};
 
 enum { K_B64ENC = 1, K_B64DEC, K_HEXENC, K_HEXDEC, K_HEXAPP, K_UTF8, K_LENFN };
 static const char *s_kind_names[] = {"?", "aws_base64_encode", "aws_base64_decode", "aws_hex_encode", "aws_hex_decode",
@@ -374,7 +375,7 @@ static void run_codec(int kind, codec_fn *fn, const struct aws_byte_cursor *cur,
     dg(&s_din, cur->len);
     dg_bytes(&s_din, cur->ptr, cur->len);
     dg(&s_din, cap * 1000003u + prelen * 257u + fill);
-    aws_reset_error();
+    mon_poison_last_error(&mon_case_rng);
     r->rc = fn(cur, &b);
     r->err = r->rc ? aws_last_error() : 0;
     r->len = b.len;
@@ -517,7 +518,7 @@ static void check_b64_decode(const uint8_t *text, size_t n, unsigned var) {
     cur.len = n;
 
     size_t pred = SIZE_MAX;
-    aws_reset_error();
+    mon_poison_last_error(&mon_case_rng);
     int lrc = aws_base64_compute_decoded_len(&cur, &pred);
     ++s_calls[K_LENFN];
     if (n % 4) {
@@ -770,7 +771,7 @@ static void check_hex_encode(const uint8_t *data, size_t L, unsigned var) {
             }
             buf.len = pre;
             dg(&s_din, K_HEXAPP * 1000003u + cap0 * 257u + pre);
-            aws_reset_error();
+            mon_poison_last_error(&mon_case_rng);
             int rc = aws_hex_encode_append_dynamic(&cur, &buf);
             ++s_calls[K_HEXAPP];
             dg(&s_dres, (uint64_t)(rc == 0));
@@ -884,7 +885,7 @@ static void check_len_fns(size_t n) {
     __uint128_t want;
     size_t got = 0;
     int rc;
-    aws_reset_error();
+    mon_poison_last_error(&mon_case_rng);
     rc = aws_base64_compute_encoded_len(n, &got);
     want = (((__uint128_t)n + 2) / 3) * 4;
     if (want > SIZE_MAX) {
@@ -893,7 +894,7 @@ static void check_len_fns(size_t n) {
     } else {
         MON_CHECK(rc == 0 && got == (size_t)want, "C05:b64-encoded-len:wrong", "aws_base64_compute_encoded_len(%zu) = rc %d, %zu", n, rc, got);
     }
-    aws_reset_error();
+    mon_poison_last_error(&mon_case_rng);
     rc = aws_hex_compute_encoded_len(n, &got);
     want = (__uint128_t)n * 2;
     if (want > SIZE_MAX) {
@@ -902,7 +903,7 @@ static void check_len_fns(size_t n) {
     } else {
         MON_CHECK(rc == 0 && got == (size_t)want, "C05:hex-encoded-len:wrong", "aws_hex_compute_encoded_len(%zu) = rc %d, %zu", n, rc, got);
     }
-    aws_reset_error();
+    mon_poison_last_error(&mon_case_rng);
     rc = aws_hex_compute_decoded_len(n, &got);
     want = ((__uint128_t)n + 1) / 2;
     /* the true value always fits; the function is documented to be able to fail (-1), which it does for SIZE_MAX */
@@ -970,7 +971,7 @@ static void run_chunked(struct aws_utf8_decoder *d, const uint8_t *t, size_t n, 
     rec_reset(abort_at);
     size_t pos = 0;
     bool ok = true;
-    aws_reset_error();
+    mon_poison_last_error(&mon_case_rng);
     for (size_t k = 0; k <= ncuts && ok; ++k) {
         size_t end = k < ncuts ? cuts[k] : n;
         struct aws_byte_cursor c;
@@ -1064,7 +1065,7 @@ static void check_utf8(const uint8_t *text, size_t n, unsigned nrandom) {
     opt.user_data = &s_rec;
     struct u8out one;
     rec_reset(SIZE_MAX);
-    aws_reset_error();
+    mon_poison_last_error(&mon_case_rng);
     bool ok1 = aws_decode_utf8(cur, &opt) == AWS_OP_SUCCESS;
     ++s_calls[K_UTF8];
     u8out_take(&one, ok1);
@@ -1095,7 +1096,7 @@ static void check_utf8(const uint8_t *text, size_t n, unsigned nrandom) {
         fputs("]}\n", s_py);
     }
     /* validation only (no callback): same verdict */
-    aws_reset_error();
+    mon_poison_last_error(&mon_case_rng);
     bool okv = aws_decode_utf8(cur, NULL) == AWS_OP_SUCCESS;
     ++s_calls[K_UTF8];
     MON_CHECK(okv == one.ok, "C05:utf8:validate-only-verdict", "aws_decode_utf8(%s, NULL options) says %s, with a callback %s", mon_hex(text, n, MAXU8), okv ? "valid" : "invalid", one.ok ? "valid" : "invalid");
@@ -1175,7 +1176,7 @@ static void check_utf8(const uint8_t *text, size_t n, unsigned nrandom) {
         size_t k = (size_t)mon_below(rng, model.n);
         struct u8out ab;
         rec_reset(k);
-        aws_reset_error();
+        mon_poison_last_error(&mon_case_rng);
         bool oka = aws_decode_utf8(cur, &opt) == AWS_OP_SUCCESS;
         ++s_calls[K_UTF8];
         u8out_take(&ab, oka);
@@ -1389,6 +1390,15 @@ static size_t gen_utf8(struct mon_rng *r, uint8_t *t) {
     size_t n = 0;
     unsigned units = (unsigned)mon_below(r, 13);
     bool only_valid = mon_chance(r, 1, 3); /* a third of the texts are well-formed throughout */
+    if (mon_chance(r, 1, 6)) {
+        /* byte-order mark (or a damaged / truncated one) in front: what follows is judged like any other text */
+        static const uint8_t bom[3] = {0xEF, 0xBB, 0xBF};
+        size_t k = mon_chance(r, 5, 6) ? 3 : 1 + (size_t)mon_below(r, 2);
+        memcpy(t, bom, k);
+        n = k;
+        mon_fp(0xB03 + k);
+        mon_flag(F_UTF8_BOM_PREFIX);
+    }
     for (unsigned u = 0; u < units && n + 8 < MAXU8 - 8; ++u) {
         unsigned pick = (unsigned)mon_below(r, only_valid ? 57 : 100);
         mon_fp(pick);
